@@ -97,6 +97,9 @@ def main(argv: list[str] | None = None) -> int:
         print(f"replay of {args.replay}: property {pid} held")
         return 0
 
+    # per-case wall-clock budget (a case over it is abandoned as inconclusive, see vclock.CaseBudget): far above what any case takes on
+    # a healthy tree (quick: <= 3 s, thorough: <= 20 s), so that a change which makes every case crawl still yields a verdict in minutes
+    os.environ.setdefault("VERIF_CASE_WALL_S", "25" if args.tier == "quick" else "120")
     ctx = Ctx(pid, args.tier, seed)
     col = Collector()
     try:
